@@ -23,6 +23,10 @@ fn alphabet() -> Vec<Spec> {
         Spec::Text(s("t")),
         Spec::Text(s("")),
         Spec::Text(s(" x\n")),
+        // blank-only text is text: no line break may follow it either
+        Spec::Text(s(" ")),
+        Spec::Text(s("\n\t")),
+        Spec::CData(s(" ")),
         Spec::CData(s("c")),
         Spec::CData(s("")),
         Spec::Comment(s("c")),
